@@ -256,5 +256,63 @@ pub enum Error {
     InvalidPublicSuffix,
 }
 
+
+#[verifier::external_body]
+pub fn vx_str_is_ascii(s: &str) -> (r: bool) ensures r == (forall|k: int| 0 <= k < sb(s).len() ==> #[trigger] sb(s)[k] < 128) { s.is_ascii() }
+
+/// Verified checker: if it returns true the table satisfies `table_wf`. Run on the shipped table.
+pub fn check_table<T: Table>() -> (ok: bool)
+    ensures ok ==> table_wf::<T>()
+{
+    proof { assert(forall|n: u32| n < 32 ==> (1u32 << n) >= 1) by(bit_vector); }
+    if !(T::NODES_BITS_TEXT_LENGTH < 32 && T::NODES_BITS_TEXT_OFFSET < 32 && T::NODES_BITS_ICANN < 32 && T::NODES_BITS_CHILDREN < 32) { return false; }
+    if !(T::NODES_BITS_TEXT_OFFSET < 32 - T::NODES_BITS_TEXT_LENGTH) { return false; }
+    if !(T::CHILDREN_BITS_LO < 32 && T::CHILDREN_BITS_HI < 32 && T::CHILDREN_BITS_NODE_TYPE < 32 && T::CHILDREN_BITS_WILDCARD < 32) { return false; }
+    if T::NODES.len() > 0x7fff_ffff || (T::NUM_TLD as usize) > T::NODES.len() { return false; }
+    if T::NODE_TYPE_NORMAL == T::NODE_TYPE_EXCEPTION { return false; }
+    if !vx_str_is_ascii(T::TEXT) { return false; }
+    let text_len = vx_str_len(T::TEXT);
+    let mut j: usize = 0;
+    while j < T::CHILDREN.len()
+        invariant
+            j <= T::CHILDREN@.len(), T::NODES@.len() <= 0x7fff_ffff,
+            T::CHILDREN_BITS_LO < 32, T::CHILDREN_BITS_HI < 32,
+            forall|n: u32| n < 32 ==> (1u32 << n) >= 1,
+            forall|jj: int| #![trigger T::CHILDREN@[jj]] 0 <= jj < j ==> c_lo::<T>(jj) <= c_hi::<T>(jj) <= T::NODES@.len(),
+        decreases T::CHILDREN@.len() - j,
+    {
+        let u = T::CHILDREN[j];
+        let lo = u & ((1 << T::CHILDREN_BITS_LO) - 1);
+        let hi = (u >> T::CHILDREN_BITS_LO) & ((1 << T::CHILDREN_BITS_HI) - 1);
+        if !(lo <= hi && (hi as usize) <= T::NODES.len()) { return false; }
+        j += 1;
+    }
+    let mut i: usize = 0;
+    while i < T::NODES.len()
+        invariant
+            i <= T::NODES@.len(), T::NODES@.len() <= 0x7fff_ffff, text_len == sb(T::TEXT).len(),
+            T::NODES_BITS_TEXT_LENGTH < 32, T::NODES_BITS_TEXT_OFFSET < 32, T::NODES_BITS_ICANN < 32, T::NODES_BITS_CHILDREN < 32,
+            T::NODES_BITS_TEXT_OFFSET + T::NODES_BITS_TEXT_LENGTH < 32,
+            T::CHILDREN_BITS_LO < 32, T::CHILDREN_BITS_HI < 32, T::CHILDREN_BITS_NODE_TYPE < 32,
+            T::NUM_TLD <= T::NODES@.len(),
+            forall|n: u32| n < 32 ==> (1u32 << n) >= 1,
+            forall|ii: int| #![trigger T::NODES@[ii]] 0 <= ii < i ==> n_off::<T>(ii) + n_len::<T>(ii) <= sb(T::TEXT).len() && n_child::<T>(ii) < T::CHILDREN@.len(),
+            forall|ii: int| #![trigger T::NODES@[ii]] 0 <= ii < i && ii < T::NUM_TLD ==> c_type::<T>(n_child::<T>(ii)) != T::NODE_TYPE_EXCEPTION,
+        decreases T::NODES@.len() - i,
+    {
+        let x = T::NODES[i];
+        let length = (x & ((1 << T::NODES_BITS_TEXT_LENGTH) - 1)) as usize;
+        let offset = ((x >> T::NODES_BITS_TEXT_LENGTH) & ((1 << T::NODES_BITS_TEXT_OFFSET) - 1)) as usize;
+        let child = (((x >> (T::NODES_BITS_TEXT_OFFSET + T::NODES_BITS_TEXT_LENGTH)) >> T::NODES_BITS_ICANN) & ((1 << T::NODES_BITS_CHILDREN) - 1)) as usize;
+        if !(offset <= text_len && length <= text_len - offset && child < T::CHILDREN.len()) { return false; }
+        if i < T::NUM_TLD as usize {
+            let cu = T::CHILDREN[child];
+            let ty = ((cu >> T::CHILDREN_BITS_LO) >> T::CHILDREN_BITS_HI) & ((1 << T::CHILDREN_BITS_NODE_TYPE) - 1);
+            if ty == T::NODE_TYPE_EXCEPTION { return false; }
+        }
+        i += 1;
+    }
+    true
+}
 }
 fn main(){}
